@@ -194,6 +194,7 @@ class Result:
     def __init__(self):
         self.problems = []       # (kind, text)
         self.divisions = []      # (dividend, divisor, [(cond, truth)])
+        self.pushes = []         # (value, [(cond, truth)])
         self.net = 0
         self.ifs = 0
 
@@ -236,6 +237,8 @@ def execute(tmpl, neutral=()):
             if op in ('PUSH', 'PUSHQ'):
                 stack.append(read(params[0]) if op == 'PUSH' and params
                              else ('const', params[0] if params else None))
+                res.pushes.append((stack[-1], [(fr['cond'], fr['arm'])
+                                               for fr in frames]))
             elif op == 'POP':
                 write(params[0], pop())
             elif op == 'OP':
